@@ -27,7 +27,7 @@ BUDGET = {
     "quick": {"cases": 12000, "seconds": 90, "shards": 8},
     "thorough": {"cases": 300000, "seconds": 900, "shards": 16},
 }
-REQUIRED_OBS = ["repeated_identifier_cases", "pdf_with_smaller_k", "exhaustive_small_graph_cases", "instance_history_cases", "arcs_checked", "pdf_checked", "k>n-1", "tied_kth_distance", "eliminate_positive", "eliminate_nonpositive", "all_equal_density",
+REQUIRED_OBS = ["repeated_identifier_cases", "decoy_table_with_switch_off", "pdf_with_smaller_k", "exhaustive_small_graph_cases", "instance_history_cases", "arcs_checked", "pdf_checked", "k>n-1", "tied_kth_distance", "eliminate_positive", "eliminate_nonpositive", "all_equal_density",
                 "pre_computed_cases", "displacing_insertion", "bound_fallback_to_1"]
 MIN_NONTRIVIAL = 150
 
@@ -61,6 +61,8 @@ def generate(rng, tier, idx):
         case["pre"] = {"D": D.tolist(), "I": [int(i) for i in I], "flag": str(rng.choice(["True", "True", "np.True_", "1"]))}
     elif rng.random() < 0.1:
         case["I_onthefly"] = [int(v) for v in rng.integers(0, max(2, n // 2), size=n)]
+    elif rng.random() < 0.12:
+        case["decoy_table"] = gen.make_matrix(rng, n, "M1").tolist()      # a table is handed over but the switch is OFF: it must be ignored
     return case
 
 
@@ -99,6 +101,9 @@ def check(case):
         safe_call(sg.destroy_arcs)
         res.see("instance_history_cases")
     flag = {"True": True, "np.True_": np.True_, "1": 1}.get((pre or {}).get("flag", "True"), True) if pre else False
+    if not pre and case.get("decoy_table"):
+        D = np.array(case["decoy_table"], dtype=float)
+        res.see("decoy_table_with_switch_off")
     call = safe_call(sg.create_arcs, k, fn, flag, D)
     if not call.ok:
         res.violate("arcs", f"C12/exception/create_arcs/{type(call.exc).__name__}", f"create_arcs(k={k}) on n={n} raised at {call.where}: {str(call.exc)[:200]}")
